@@ -43,6 +43,10 @@ type Property struct {
 	Isolate bool
 	// CallTimeout is the per-run watchdog.
 	CallTimeout time.Duration
+	// HangIsViolation: the property itself forbids non-termination (C10). Everywhere
+	// else a run that exceeds the watchdog is harness trouble (exit 2), never a violation:
+	// a loaded machine must not be able to raise an alarm.
+	HangIsViolation bool
 	// ExtraEvidence lets a property add keys to coverage.
 	ExtraEvidence func(tier string) map[string]any
 	// Workers overrides the number of worker processes (0 = NumCPU).
@@ -209,7 +213,7 @@ func (p *Property) execPlan(plan []byte, verbose bool) *Run {
 // Main is the entry point of every property binary.
 func Main(p *Property) {
 	if p.CallTimeout == 0 {
-		p.CallTimeout = 60 * time.Second
+		p.CallTimeout = 5 * time.Minute
 	}
 	if len(os.Args) < 2 {
 		fmt.Fprintf(os.Stderr, "usage: %s quick|thorough|replay <file>|selftest\n", os.Args[0])
@@ -572,6 +576,22 @@ func (p *Property) replay(path string) int {
 		fmt.Printf("VIOLATION property=%s replay=%s\n", p.ID, path)
 		return 1
 	}
+	if !p.HangIsViolation {
+		kept := res.Viol[:0]
+		hung := false
+		for _, v := range res.Viol {
+			if v.Component == "watchdog" {
+				hung = true
+				continue
+			}
+			kept = append(kept, v)
+		}
+		res.Viol = kept
+		if hung && len(kept) == 0 {
+			fmt.Printf("replay exceeded the per-run watchdog of %v (harness trouble, not a violation)\n", p.CallTimeout)
+			return 2
+		}
+	}
 	if len(res.Viol) > 0 {
 		fmt.Printf("different violation(s): %v\n", res.Viol)
 		fmt.Printf("VIOLATION property=%s replay=%s\n", p.ID, path)
@@ -733,6 +753,17 @@ func (p *Property) check(tier string) int {
 			hangs = append(hangs, s.HangPlan)
 		}
 	}
+	if !p.HangIsViolation {
+		kept := agg.Viol[:0]
+		for _, v := range agg.Viol {
+			if v.V.Component == "watchdog" {
+				hangs = append(hangs, v.Plan)
+				continue
+			}
+			kept = append(kept, v)
+		}
+		agg.Viol = kept
+	}
 	sort.Slice(agg.Viol, func(i, j int) bool { return agg.Viol[i].Run < agg.Viol[j].Run })
 
 	// determinism spot check: re-execute sampled run ids in a second process
@@ -808,6 +839,13 @@ func (p *Property) check(tier string) int {
 			groups[k] = &group{v, 1}
 			order = append(order, k)
 		}
+	}
+	if len(hangs) > 0 && !p.HangIsViolation {
+		fmt.Printf("[%s] harness trouble: %d run(s) exceeded the per-run watchdog of %v (machine load?); not a violation\n", p.ID, len(hangs), p.CallTimeout)
+		if exit == 0 {
+			exit = 2
+		}
+		hangs = nil
 	}
 	for _, hp := range hangs {
 		k := p.ID + "|watchdog|hang"
